@@ -108,6 +108,7 @@ type lockAnalysis struct {
 	entry    map[*ssa.Function]lkState
 	callSite map[*ssa.Function][]lkState // states at in-type call sites of a helper
 	agg      map[string]*accAgg
+	payload  map[*types.Named]bool // struct types whose POINTER is stored as a list element's Value
 }
 
 type accAgg struct {
@@ -173,6 +174,7 @@ func runLock(c *Ctx, rule string) {
 		c.Check(len(bad) == 0 && n > 0, rule, named.Obj().Name(), "no-lock-copy", token.NoPos, fmt.Sprintf("%d methods, all on pointer receivers; no struct copy", n), uniqJoin(bad, 3))
 	}
 	// field mutability + outside access
+	la.findPayload()
 	la.scanStores()
 	// which methods take the lock themselves
 	for _, m := range la.methods {
@@ -451,8 +453,22 @@ func (la *lockAnalysis) access(in ssa.Instruction) (int, string) {
 			if fa, ok := x.X.(*ssa.FieldAddr); ok && isNamed(fa.X.Type(), "container/list", "Element") {
 				return 1, "list.Element." + fieldAddrName(fa)
 			}
+			// a field of an entry object the list elements POINT at: the object is shared with every
+			// operation that reaches the element, so it is read and written under the lock like the
+			// element itself (a pointer copied out under the lock and dereferenced after the unlock
+			// reads what a concurrent Store overwrites)
+			if fa, ok := x.X.(*ssa.FieldAddr); ok && la.payload[namedOf(fa.X.Type())] && !freshObject(fa.X) {
+				if pt, isPtr := fa.X.Type().Underlying().(*types.Pointer); isPtr && namedOf(pt.Elem()) != nil {
+					return 1, "entry." + fieldAddrName(fa)
+				}
+			}
 		}
 	case *ssa.Store:
+		if fa, ok := x.Addr.(*ssa.FieldAddr); ok && la.payload[namedOf(fa.X.Type())] && !freshObject(fa.X) {
+			if pt, isPtr := fa.X.Type().Underlying().(*types.Pointer); isPtr && namedOf(pt.Elem()) != nil {
+				return 2, "entry." + fieldAddrName(fa)
+			}
+		}
 		if i, fa, ok := la.selfField(x.Addr); ok && i != la.muIdx && !freshObject(fa.X) {
 			return 2, fieldLabel(i)
 		}
@@ -660,6 +676,44 @@ func (la *lockAnalysis) analyse(fn *ssa.Function, helper bool) {
 	for _, b := range fn.Blocks {
 		if reach[b] && has[b] {
 			transfer(b, in[b])
+		}
+	}
+}
+
+// findPayload: when the methods of the cache insert a POINTER to a repository struct as the Value of a
+// list element (an entry object holding key and value), that struct's fields are guarded state too.
+func (la *lockAnalysis) findPayload() {
+	la.payload = map[*types.Named]bool{}
+	for _, fn := range la.c.P.Funcs {
+		if fn.Blocks == nil {
+			continue
+		}
+		for _, b := range fn.Blocks {
+			for _, ins := range b.Instrs {
+				call, ok := ins.(*ssa.Call)
+				if !ok {
+					continue
+				}
+				nm := calleeName(&call.Call)
+				if !strings.HasPrefix(nm, "(*container/list.List).Push") && !strings.HasPrefix(nm, "(*container/list.List).Insert") {
+					continue
+				}
+				args := callArgs(&call.Call)
+				if len(args) < 2 {
+					continue
+				}
+				v := args[1]
+				if mi, ok := v.(*ssa.MakeInterface); ok {
+					v = mi.X
+				}
+				if pt, ok := v.Type().Underlying().(*types.Pointer); ok {
+					if n := namedOf(pt.Elem()); n != nil && n.Obj().Pkg() != nil && strings.HasPrefix(n.Obj().Pkg().Path(), ModPath) {
+						if _, isStruct := n.Underlying().(*types.Struct); isStruct {
+							la.payload[n] = true
+						}
+					}
+				}
+			}
 		}
 	}
 }
